@@ -12,5 +12,5 @@ CONSTANTS
 INIT InitI
 NEXT NextI
 VIEW ViewI
-INVARIANTS NoIndexError
+INVARIANTS NoFilterInitFailure
 CHECK_DEADLOCK FALSE
